@@ -24,6 +24,9 @@ Definition run_506 (g : list Z) : io :=
 (* 507: names (one group each) -> short names, [-1], (short, long) pairs as two groups each *)
 Definition run_507 (a : io) : io :=
   w_short_names a ++ [[-1]] ++ flat_map (fun kv => [fst kv; snd kv]) (w_long_attrs a).
+(* 517: names of the signals of one frame -> SG_ symbols (suffixed where shortened names collide), [-1], (symbol, long) pairs *)
+Definition run_517 (a : io) : io :=
+  w_out_names a ++ [[-1]] ++ flat_map (fun kv => [fst kv; snd kv]) (w_out_attrs a).
 (* 508: short names, [-1], attribute pairs -> names after the reader's renaming *)
 Fixpoint split_marker (a : io) (acc : io) : io * io :=
   match a with
@@ -169,6 +172,7 @@ Definition run_c05 (cmd : Z) (a : io) : io :=
   | 514, [g] => run_514 g
   | 515, [h; ds] => run_515 h ds
   | 516, [g] => run_516 g
+  | 517, _ => run_517 a
   | 520, _ => run_520 a
   | 521, _ => run_521 a
   | _, _ => [[-999]]
